@@ -423,3 +423,47 @@ prop(dict(
          "seeded random byte strings feed the decoder; distinct = distinct case records",
     assumptions=COMMON_ASSUME + ["VLAs without any active layer are judged for round trip and panics only (the specification text does not fix their temporal-layer byte)"],
 ))
+
+
+# ---------------------------------------------------------------- C18
+def rand_c18(seed, tier, cases=None):
+    rng = random.Random(seed * 7919 + 18)
+    out = []
+    n = 4000 if tier == "quick" else 150000
+    for _ in range(n):
+        kind = rng.choice(["estimate", "estimate", "capture", "offset"])
+        def instant():
+            m = rng.random()
+            if m < 0.4:
+                k = rng.randint(1, 32593413)
+                base = 64 * k
+                off = rng.choice([-3, -2, -1, 0, 0, 1, 2])
+                return [max(0, min(2085978495, base + off)), rng.choice([0, 1, 3814, 3815, 999996185, 999999999, rng.randint(0, 999999999)])]
+            return [rng.randint(0, 2085978495), rng.randint(0, 999999999)]
+        if kind == "estimate":
+            d = rng.choice([[0, rng.randint(0, 5000)], [rng.randint(0, 62), rng.randint(0, 999999999)], [63, rng.randint(0, 999996184)], [63, 999996184 - rng.randint(0, 4000)]])
+            t = instant()
+            out.append(dict(fam="C18", kind="estimate", send=t, delay=d, **{"class": "rand_estimate"}))
+        elif kind == "capture":
+            out.append(dict(fam="C18", kind="capture", t=instant(), **{"class": "rand_capture"}))
+        else:
+            sec = rng.choice([0, 0, rng.randint(0, 100), rng.randint(0, 2147483647)])
+            out.append(dict(fam="C18", kind="offset", d=dict(neg=rng.random() < 0.5, sec=sec, nsec=rng.randint(0, 999999999)), **{"class": "rand_offset"}))
+    return out
+
+
+prop(dict(
+    id="C18", fam="C18",
+    mc=[("NtpTimeMC.tla", "NtpTimeMC.cfg", {"thorough": {"M": "64", "MaxT": "300", "MaxD": "64"}})],
+    gen=[("NtpTimeGen.tla", "NtpTimeGen.cfg", {"thorough": {"WrapKs": "{1, 2, 3, 1000, 1001, 13281250, 26562500, 26562501, 30000000, 32593412, 32593413, 32593414}"}})],
+    rand=rand_c18,
+    trace=("NtpTimeTrace.tla", "NtpTimeTrace.cfg"),
+    shards={"quick": 1, "thorough": 12},
+    nontrivial=lambda c: True,
+    mandatory=["estimate", "estimate_long_delay", "estimate_near_wrap", "estimate_long_delay_near_wrap", "capture", "offset", "offset_negative", "rand_estimate"],
+    rule="TLC enumerates instants = 64 s wrap points of the 24-bit field +- {0, 1 ns, 3814-3816 ns, 1 us, 1 s}, whole-second boundaries, epoch and the end of NTP era 0, "
+         "x 14 delays spanning [0, 64 s - 2^-18 s), plus capture instants and clock offsets up to +-(2^31 s - 1 ns); seeded random (instant, delay) pairs concentrated around "
+         "wrap points are added; the wrap logic itself is model-checked exhaustively on field ticks (NtpTimeMC); distinct = distinct case records",
+    assumptions=COMMON_ASSUME + ["the Estimate clause is decided by enumeration around the wrap structure plus the tick-level model, not by proof",
+                                 "tolerances: 1 ns for capture time and offset, 3816 ns (2^-18 s + conversion loss) for Estimate, estimate never later than the send instant"],
+))
